@@ -1,6 +1,7 @@
 import PyribsGen.Formulas
 import PyribsModel.Archive
 import PyribsModel.GridIndex
+import PyribsModel.Sliding
 import Mathlib.Algebra.Order.Field.Rat
 import Mathlib.Tactic.Ring
 import Mathlib.Tactic.FieldSimp
@@ -69,5 +70,15 @@ theorem stats_match (a : Arch) :
   · unfold objMean GenF.objMean
     simp only [h, if_false, Option.some.injEq]
     try ring
+
+/-- **G15 `boundaries_from_source`** (C15): the boundaries of a remap are the buffered coordinates at
+the ranks `int(j * buffer.size / dims[i])` that `_remap` computes (`j < dims[i]`), followed by the
+largest one -/
+theorem boundaries_from_source (sorted : List Rat) (d : Nat) :
+    remapBoundaries sorted d =
+      (List.range d).map (fun j => sorted.getD (GenF.boundaryRank j sorted.length d) 0)
+        ++ [sorted.getD (sorted.length - 1) 0] := by
+  unfold remapBoundaries GenF.boundaryRank
+  rfl
 
 end Pyribs.GenFProofs
